@@ -46,6 +46,7 @@ inductive Expr where
   | as (h : Nat) (k : Kind) (convert : Option Nat)
   | callResult (f : Nat)
   | arrayLength (h : Nat)
+  | alias (h : Nat)            -- DXIL mem2reg: value of an earlier expression
   | other (name : String)
   deriving Repr, Inhabited
 
@@ -87,6 +88,9 @@ structure Module where
   globals : Array Global
   functions : Array Fn
   entries : Array (String × Nat × Fn)
+  /-- Evaluate a not-yet-emitted expression on demand at its use site (what the text back ends do
+  when they write an un-baked expression inline).  Off by default: an unemitted use is `stuck`. -/
+  lazyEval : Bool := false
   deriving Inhabited
 
 /-! ## Reader -/
@@ -148,6 +152,7 @@ def parseExpr : Sexp → Option Expr
   | .list [.atom "as", h, .atom k, c] => do some (.as (← h.nat?) (kindOf k) (← optNat c))
   | .list [.atom "callresult", f] => do some (.callResult (← f.nat?))
   | .list [.atom "arraylength", h] => do some (.arrayLength (← h.nat?))
+  | .list [.atom "alias", h] => do some (.alias (← h.nat?))
   | .list (.atom n :: _) => some (.other n)
   | _ => none
 
@@ -374,7 +379,7 @@ mutual
         | some (.global n) => pure (.ptr (.global n) [])
         | some (.localVar n) => pure (.ptr (.local frId n) [])
         | some e =>
-          if isConstExpr fr.fn.exprs 64 h then evalExprF m st frId fr fuel h
+          if isConstExpr fr.fn.exprs 64 h || m.lazyEval then evalExprF m st frId fr fuel h
           else throw (.stuck s!"expression {h} used before being emitted: {repr e}")
         | none => throw (.stuck s!"expression handle {h} out of range")
 
@@ -440,6 +445,7 @@ mutual
               let xs ← opt (elems v) "arrayLength of non-array"
               pure (.u32 (BitVec.ofNat 32 xs.length))
             | _ => throw (.stuck "arrayLength of non-pointer")
+        | .alias x => g x
         | .other n => throw (.unsupported ("expression " ++ n))
         | _ => g h
 end
